@@ -78,6 +78,27 @@ func runC04Enum(src sim.Source, o Opts, res *Result) {
 			}
 		}
 	}
+	// one time in three the history before the program contains a committed Truncate of one custom verb that had routes
+	// (its root leaves the published root list): whatever that leaves behind belongs to the published state, and the
+	// transactions that follow start from it
+	if src.Intn("truncatedbefore", 3) == 2 {
+		verb := sim.Pick(src, "truncatedverb", []string{"PUSH", "UNPUSH"})
+		nextTag++
+		op := genWOp(src, pool, []string{verb}, nextTag, false, 0)
+		op.Kind = "handle"
+		if applyModel(committed, cfg, pool, op).Class == "ok" {
+			if out := applyFox(w, w.R, pool, op); out.Class != "ok" {
+				res.fail("C04/setup", "prefill %v returned %v", op, out)
+				return
+			}
+		}
+		if err := w.R.Updates(func(txn *fox.Txn) error { return txn.Truncate(verb) }); err != nil {
+			res.fail("C04/setup", "Truncate(%s) before the program: %v", verb, err)
+			return
+		}
+		committed.Truncate(verb)
+		res.inc("history_with_a_committed_truncate_of_a_custom_verb")
+	}
 	prog := genTxnProgHint(src, pool, methods3, &nextTag, 6, 8, committed, cfg)
 	managed := prog.Managed
 	// enumerate every ending at every position; commit last (it changes the committed state)
